@@ -52,6 +52,8 @@ def tasks(tier):
         for mode in ('bytes', 'utf-8'):
             for sub in SUBSETS:
                 out.append(dict(transport=tr, mode=mode, subset=list(sub), tier=tier))
+            # small maxread: a chunk is returned in several reads (PopenSpawn carries the rest over in its own buffer)
+            out.append(dict(transport=tr, mode=mode, subset=['logfile', 'logfile_read', 'logfile_send'], tier=tier, maxread=3))
     return out
 
 
@@ -69,7 +71,7 @@ def run_seq(task, seq):
     obs = {}
     try:
         enc = None if task['mode'] == 'bytes' else task['mode']
-        link = TR.Link(env, task['transport'], timeout=0.1, maxread=2000, encoding=enc)
+        link = TR.Link(env, task['transport'], timeout=0.1, maxread=task.get('maxread', 2000), encoding=enc)
         sp = link.sp
         if task['transport'] == 'popen':
             env.eager_reader = True
@@ -107,6 +109,14 @@ def run_seq(task, seq):
                         sp.read_nonblocking(2000, 0.1)
                 except TIMEOUT:
                     pass
+                if task.get('maxread'):
+                    # drain what the operation left of its chunk (reads of at most maxread characters)
+                    for _ in range(40):
+                        try:
+                            if not sp.read_nonblocking(sp.maxread, 0.05):
+                                break
+                        except TIMEOUT:
+                            break
             else:
                 if op == 'send':
                     arg = S('p\xe9q')
